@@ -4,7 +4,8 @@ Each entry names a function (and its closures), the kind of fact, and the normal
   compare  a comparison that decides a branch (either outcome) - used for `skip when empty` / `mirror at the edge` guards;
   calls    a call to the named function from the family (a conversion or a query the repair depends on);
   guarded  `callee <= cmp:<text>` / `callee <= call:<fn>`: every call of `callee` in the family is dominated by a branch on that comparison
-           (either polarity) / on the result of a call to <fn>.
+           (either polarity) / on the result of a call to <fn>;
+  reads    the family reads the named struct field.
 These are necessary conditions only: the rule says that the guard exists and is wired to the same values, not that it is sufficient."""
 from .. import validation
 from ..facts import callee
@@ -44,6 +45,8 @@ TABLE = [
      "a no-op transform with four outputs (CMYK) removes no colour channel from a three-channel image"),
     (("C01",), "jxl_render::RenderContextBuilder::build", "calls", "ExtraChannelInfo::is_black", "D35",
      "a CMYK profile needs a black extra channel"),
+    (("C06",), "jxl_render::util::image_region_to_frame", "reads", "save_before_ct", "D42",
+     "a regular frame saved for reference before the colour transform can be a patch source and is rendered in full, like a reference-only frame"),
     (("C01", "C03"), "jxl_modular::ma::MaTreeNode::try_compile_to_table", "compare", "value > ret:end", "D39",
      "a decision whose threshold lies above the node's range is redundant: only the right child is reachable"),
     (("C01", "C03"), "jxl_modular::ma::MaTreeNode::try_compile_to_table", "compare", "(value+1) < ret:start", "D39",
@@ -138,6 +141,26 @@ def run(ctx, pid):
                 elif kind == "compare":
                     cache[(f.path, kind)] = {validation.norm(c["subject"], c["op"], c["other"])
                                              for c in validation.checks(f, errs=set(range(len(f.blocks))))}
+                elif kind == "reads":
+                    names = set()
+                    for blk in f.blocks:
+                        if blk[2]:
+                            continue
+                        for st in blk[0]:
+                            if st[0] != "=":
+                                continue
+                            rv = st[2]
+                            pls = [rv[1][1]] if rv[0] == "use" and rv[1][0] in ("c", "m") else ([rv[2]] if rv[0] == "ref" else [])
+                            for pl in pls:
+                                for e in pl[1:]:
+                                    if isinstance(e, list) and e[0] == "." and e[2] is not None:
+                                        names.add(str(e[2]))
+                        t = blk[1]
+                        if t[0] == "switch" and t[1][0] in ("c", "m"):
+                            for e in t[1][1][1:]:
+                                if isinstance(e, list) and e[0] == "." and e[2] is not None:
+                                    names.add(str(e[2]))
+                    cache[(f.path, kind)] = names
                 else:
                     cache[(f.path, kind)] = {callee(t)["fn"] for _, t in f.calls() if callee(t)} | \
                                             {callee(t).get("res", "") for _, t in f.calls() if callee(t)}
